@@ -792,6 +792,21 @@ def _anchor_calls():
     return _ANCHOR_CALLS
 
 
+_ANCHOR_ALT = None
+
+
+def _anchor_alt():
+    global _ANCHOR_ALT
+    if _ANCHOR_ALT is None:
+        import os
+        p = os.path.join(os.path.dirname(os.path.dirname(os.path.abspath(__file__))), "anchors_alt.json")
+        try:
+            _ANCHOR_ALT = json.load(open(p))
+        except Exception:
+            _ANCHOR_ALT = {}
+    return _ANCHOR_ALT
+
+
 _ANCHOR_PARAMS = None
 
 
@@ -1080,7 +1095,8 @@ class Crate:
             self.aliases[b.id] = n
             b.real_name = b.name
             b.name = n            # rules (and their name tables) see the name of the reviewed tree
-        for k, sig in table.items():
+        alt = _anchor_alt()
+        for k, sig in [(k_, s_) for k_, s0 in table.items() for s_ in [s0] + alt.get(k_, [])]:
             f, n = k.rsplit("::", 1)
             bs = by_file.get(f)
             if not bs or any(b.name == n for b in bs):
@@ -1187,10 +1203,11 @@ class Crate:
                 names, sig = table[ks[0]], sigs.get(ks[0])
             if not sig or len(names) != b.argc or len(sig) - 2 != b.argc:
                 continue
+            sig_alts = [sig] + [s2 for s2 in _anchor_alt().get(k, []) if len(s2) == len(sig)]
             used = set(b.var_names.values())
             for l in range(1, b.argc + 1):
                 want, have = names[l - 1], b.var_names.get(l)
-                if want and have != want and b.local_ty(l) == sig[l - 1] and want not in used:
+                if want and have != want and any(b.local_ty(l) == s2[l - 1] for s2 in sig_alts) and want not in used:
                     b.var_names[l] = want
                     used.add(want)
 
